@@ -89,6 +89,8 @@ def run_symbolic(h, repo_root):
 
     def body(path):
         view.path = path
+        from .interp import Frame
+        Frame.overrides.clear()
         interp.invariants.clear()
         interp.call_contracts.clear()
         try:
